@@ -114,14 +114,20 @@ def run(ctx):
     def pieces():
         c = lambda fn: hq.Canon(ctx.hir(RB + "::" + fn), inline=True, force=True, max_depth=6)  # noqa: E731
         DL, FL = RB + "::data_slice_lengths(self)", RB + "::free_slice_lengths(self)"
+        # the two lengths as case tables per tuple member (any spelling: destructure-and-rebuild or the if/else directly)
         b = ctx.hir(RB + "::data_slice_lengths")
-        s = c("data_slice_lengths")(hq.tail_expr(b["body"]))
-        want = "(if (self.head <= self.tail) { ((self.tail - self.head), 0) } else { ((self.cap - self.head), self.tail) }.0, if (self.head <= self.tail) { ((self.tail - self.head), 0) } else { ((self.cap - self.head), self.tail) }.1)"
+        bix = hq.Index(b)
+        t = hq.tail_expr(b["body"])
+        s = [bix.case_table(t, ".0"), bix.case_table(t, ".1")]
+        want = [[(["(self.head <= self.tail)"], "(self.tail - self.head)"), (["(self.tail < self.head)"], "(self.cap - self.head)")],
+                [(["(self.head <= self.tail)"], "0"), (["(self.tail < self.head)"], "self.tail")]]
         ctx.check(s == want, R, "data_slice_lengths", b["file"], "data lengths: (T-H, 0) if T>=H else (C-H, T)", observed=s, expected=want)
         b = ctx.hir(RB + "::free_slice_lengths")
-        s = c("free_slice_lengths")(hq.tail_expr(b["body"]))
-        br = "if (self.tail < self.head) { ((self.head - self.tail), 0) } else { ((self.cap - self.tail), self.head) }"
-        want = "(%s.1, %s.0)" % (br, br)
+        bix = hq.Index(b)
+        t = hq.tail_expr(b["body"])
+        s = [bix.case_table(t, ".0"), bix.case_table(t, ".1")]
+        want = [[(["(self.head <= self.tail)"], "self.head"), (["(self.tail < self.head)"], "0")],
+                [(["(self.head <= self.tail)"], "(self.cap - self.tail)"), (["(self.tail < self.head)"], "(self.head - self.tail)")]]
         ctx.check(s == want, R, "free_slice_lengths", b["file"], "free lengths: (to_head, after_tail) = (0, H-T) if T<H else (H, C-T)",
                   observed=s, expected=want)
         b = ctx.hir(RB + "::data_slice_parts")
